@@ -42,6 +42,10 @@ Verdict judge(const Case& c) {
   bool closed = c.I("closed") != 0;
   int64_t m = std::max(O::maxAbs(c.P("pattern")), O::maxAbs(c.P("path")));
   if (m > (int64_t(1) << 40)) { v.discard = true; return v; }
+  // KF-C19-a: an operand smaller than ~4 units sweeps a band only 1-3 grid units wide; the parallelograms handed to the
+  // union are then slivers far from general position and the union loses the enclosed hole (cf. KF-C07-b).  Excluded.
+  auto diam = [](const Path64& p) { Rect64 r = GetBounds(p); return std::hypot((double)(r.right - r.left), (double)(r.bottom - r.top)); };
+  bool thin = pattern.size() >= 2 && path.size() >= 2 && std::min(diam(pattern), diam(path)) < 4.0;
   for (int isSum = 1; isSum >= 0; --isSum) {
     Paths64 res = isSum ? MinkowskiSum(pattern, path, closed) : MinkowskiDiff(pattern, path, closed);
     v.evals++;
@@ -51,6 +55,7 @@ Verdict judge(const Case& c) {
     Paths64 qp;
     for (auto& Q : quads) qp.emplace_back(Q.q, Q.q + 4);
     if (quads.empty()) { if (!res.empty()) { v.fail("no non-degenerate parallelogram but a non-empty result" + cfg); return v; } continue; }
+    if (thin) { v.known = "KF-C19-a"; ST.count("excluded_operand_smaller_than_4_units"); continue; }
     ld tau = 2.0L + (ld)(2 * m) * ldexpl(1.0L, -42);
     O::Samples S = O::faceSamples(O::segsOf(qp), tau, 700);
     int overlapping = 0;
